@@ -453,6 +453,9 @@ func exec(h History) lib.Case {
 		lib.Stat(c.Stats, "op:"+st.K)
 		lib.Stat(c.Stats, "res:"+o.Kind)
 		lib.Stat(c.Stats, "res:"+st.K+":"+o.Kind)
+		if (st.K == "addu" || st.K == "remu") && st.D2 != 0 && st.D2 != st.D1 {
+			lib.Stat(c.Stats, "uni:foreign-denom:"+o.Kind)
+		}
 		c.Steps = append(c.Steps, fmt.Sprintf("%s -> %s %s", st.String(), o.Kind, short(o.Err)))
 		// non-triviality bookkeeping
 		if o.OK() {
@@ -504,6 +507,18 @@ func exec(h History) lib.Case {
 				}
 			case "params":
 				lib.Stat(c.Stats, "params:changed")
+			case "send":
+				if st.B > 1000 && st.D1 >= 1 && st.D1 <= 3 {
+					foreign := true
+					for _, pp := range poolsBefore {
+						if 1000+pp[1] == st.B && pp[0] == st.D1 {
+							foreign = false
+						}
+					}
+					if foreign {
+						lib.Stat(c.Stats, "donation:unrelated-denom")
+					}
+				}
 			case "add", "rem", "addu", "remu":
 				cp := st.D1
 				if st.K == "rem" {
